@@ -3,7 +3,11 @@
 P="$1"; ID="$2"; TIER="${3:-quick}"
 cd /repo || exit 2
 if [ -n "$(git status --porcelain)" ]; then echo "repo not clean"; exit 2; fi
-git apply "$P" || { echo "patch does not apply"; exit 2; }
-cd /verif && ./vcheck "$ID" --tier "$TIER" 2>&1 | grep -E "^(VIOLATION|KNOWN|INFRA|$ID tier)" | cut -c1-400 | head -8
-echo "exit=${PIPESTATUS[0]}"
-git -C /repo checkout -- . && git -C /repo status --porcelain | head -3
+git apply "$P" 2>/dev/null || git apply --3way "$P" 2>/dev/null || { echo "patch does not apply"; git reset -q --hard HEAD; exit 2; }
+git reset -q   # keep the change in the working tree only
+cd /verif && ./vcheck "$ID" --tier "$TIER" > /tmp/tryseed.$$.out 2>&1
+echo "exit=$?"
+grep -E "^(VIOLATION|KNOWN|INFRA|$ID tier)" /tmp/tryseed.$$.out | cut -c1-400 | head -8
+grep -q -E "^(VIOLATION|$ID tier)" /tmp/tryseed.$$.out || tail -5 /tmp/tryseed.$$.out
+rm -f /tmp/tryseed.$$.out
+git -C /repo reset -q --hard HEAD && git -C /repo status --porcelain | head -3
